@@ -114,6 +114,11 @@ def _tweak_entry(entry, tw):
             e["other_headers"] = h + "04ff" + "%08x" % (len(h) // 2)
         elif kind == "upper":
             e[tw[1]] = e[tw[1]].upper()
+        elif kind == "respell":       # ["respell", field, how]: a lenient reader would see the same bytes
+            new = gen.respell(e[tw[1]], tw[2])
+            if new == e[tw[1]]:
+                return None
+            e[tw[1]] = new
         elif kind == "extra":
             e[tw[1]] = tw[2]
         else:
@@ -264,9 +269,22 @@ class EnvelopeWorld(World):
             payload["packages"] = {"pkg-%06d" % i: {"sha256": "%064x" % (i * 0x9E3779B97F4A7C15 % 2**256), "size": i} for i in range(op["pad"] // 100)}
             self.run.probe("large_payload")
         src = copy.deepcopy(payload)
+        if op.get("shared") and isinstance(src, dict):
+            # the same list / dict object referenced from two places (a key list given to two roles, a template record reused):
+            # no cycle, and as a JSON value simply two equal members
+            inner = next((x for x in src.values() if isinstance(x, (dict, list))), None)
+            if inner is None:
+                inner = src["shared-a"] = ["x", {"y": 1}]
+            src["shared-b"] = inner
+            src["shared-c"] = [inner, inner]
+            payload = copy.deepcopy(src)           # the reference value: equal members, nothing shared
+            self.run.probe("payload_with_shared_subobjects")
         if op.get("tuples"):
             src = _tuplify(src, 0)          # tuples are a supported payload type of the library (serialized as arrays)
             self.run.probe("payload_with_tuples")
+        elif op.get("subclass"):
+            src = _subclassify(src, 0, op["subclass"])
+            self.run.probe("payload_with_container_subclasses")
         o = self.calls.raw("wrap_as_signable", src)
         if not o.ok:
             self.run.violate(("C09",), "wrap-failed", "wrap_as_signable raised %r" % (o,))
@@ -633,10 +651,17 @@ class EnvelopeWorld(World):
         if e >= len(self.envs):
             return self.run.ev("noop")
         r = random.Random(op["seed"])
+        junk = {}
         for _ in range(op["n"]):
             k = gen.junk_key(r, self.keys.pub)
-            if k not in self.keys.pub:
-                self.envs[e]["signatures"][k] = gen.junk_entry(r)
+            if k not in self.keys.pub and k not in self.envs[e]["signatures"]:
+                junk[k] = gen.junk_entry(r)
+        if op.get("front"):
+            # the flood comes first in the map's order, the real entries after it
+            junk.update(self.envs[e]["signatures"])
+            self.envs[e]["signatures"] = junk
+        else:
+            self.envs[e]["signatures"].update(junk)
         self.run.fault("bulk_junk")
         self.env_faults[e].add("bulk_junk")
 
@@ -768,6 +793,10 @@ class EnvelopeWorld(World):
             elif k < 0.19:
                 pl = {"signatures": {}, "signed": pl}           # counter-signing: the payload is itself an envelope
             op = {"op": "new_env", "payload": pl, "gpg": rng.random() < h["gpg_bias"], "tuples": rng.random() < 0.2}
+            if not op["tuples"] and rng.random() < 0.2:
+                op["subclass"] = rng.choice(["ordered", "default", "sub", "alternate"])
+            if rng.random() < 0.12:
+                op["shared"] = True
             if isinstance(pl, dict) and rng.random() < 0.02:
                 op["pad"] = rng.choice([70000, 70000, 150000, 400000])
             return op
@@ -840,7 +869,7 @@ class EnvelopeWorld(World):
             return {"op": "verify_shape", "env": e, "auth": auth, "t": rng.randint(1, 2), "gpg": gpg, "dt": dt,
                     "shape": rng.choice(["extra_member", "no_signed", "no_signatures", "sigs_list", "sigs_none", "as_list", "renamed", "nested"])}
         if r < 0.935 and rate > 0:
-            return {"op": "bulk_junk", "env": e, "n": rng.choice([10, 50, 300]), "seed": rng.getrandbits(30), "dt": dt}
+            return {"op": "bulk_junk", "env": e, "n": rng.choice([10, 50, 120, 300, 300, 1100, 5000]), "seed": rng.getrandbits(30), "dt": dt, "front": rng.random() < 0.5}
         if r < 0.96 and rate > 0:
             ps = gen.paths(E["signed"])
             p = list(rng.choice(ps))
@@ -946,7 +975,8 @@ class EnvelopeWorld(World):
             a = rng.choice(signed_keys)
             tw = rng.choice([["trunc", "signature", 2], ["ext", "signature", "00"], ["swap_rs"],
                              ["trunc", "other_headers", 2], ["ext", "other_headers", hx(2)],
-                             ["upper", "signature"], ["extra", "note", "x"]])
+                             ["upper", "signature"], ["extra", "note", "x"],
+                             ["respell", "signature", rng.choice(gen.SPELLINGS)], ["respell", rng.choice(["signature", "other_headers", "see_also"]), rng.choice(gen.SPELLINGS)]])
             return {"op": "file", "kind": kind, "env": e, "src": ["env", e, a], "under": ["key", a], "tweak": tw}
         if kind == "pgp_games" and signed_keys:
             a = rng.choice(signed_keys)
@@ -1020,8 +1050,58 @@ def _tuplify(v, depth):
     return v
 
 
+class _ListSub(list):
+    pass
+
+
+class _DictSub(dict):
+    pass
+
+
+def _subclassify(v, depth, how):
+    """Same JSON value with containers below the root held in subclasses of dict / list (what json.load with an
+    object_pairs_hook, collections.defaultdict / Counter or a framework's own record types hand to a caller)."""
+    import collections
+    if isinstance(v, dict):
+        items = [(k, _subclassify(x, depth + 1, how)) for k, x in v.items()]
+        if depth == 0 or (how == "alternate" and depth % 2):
+            return dict(items)
+        if how == "ordered":
+            return collections.OrderedDict(items)
+        if how == "default":
+            d = collections.defaultdict(list)
+            d.update(items)
+            return d
+        return _DictSub(items)
+    if isinstance(v, list):
+        inner = [_subclassify(x, depth + 1, how) for x in v]
+        return inner if depth == 0 or how == "ordered" else _ListSub(inner)
+    return v
+
+
 def _mutate_deep(v):
-    """Mutate the deepest mutable container of v in place (looking through tuples); False if there is none."""
+    """Mutate every mutable container of v in place (looking through tuples); False if there is none."""
+    done = [False]
+
+    def walk(x):
+        if isinstance(x, dict):
+            for y in list(x.values()):
+                walk(y)
+            x["__mutated__"] = 1
+            done[0] = True
+        elif isinstance(x, list):
+            for y in list(x):
+                walk(y)
+            x.append("__mutated__")
+            done[0] = True
+        elif isinstance(x, tuple):
+            for y in x:
+                walk(y)
+    walk(v)
+    return done[0]
+
+
+def _mutate_deepest(v):
     cur, last = v, None
     while isinstance(cur, (dict, list, tuple)):
         if not isinstance(cur, tuple):
